@@ -102,26 +102,34 @@ Proof.
   - intros k r [h tl] l Hr _ (l0 & lt & -> & (Hh & HQ) & HM). cbn [fst snd] in *. exists h, tl, l0, lt. auto.
 Qed.
 
-Lemma tail_many {A B} (x : nat -> A -> B) (fl : A -> list kind) k1 r tl lt :
-  Many (el_Q (IQ x fl)) k1 r tl lt -> r <= k1 ->
-  exists t, tl = x_tail fl (x 0) (k1 - r) t /\ lt = fl_tail fl t.
+Section Sep.
+Context {A B : Type} (Q : nat -> nat -> B -> list kind -> Prop) (x0 : A -> B) (fl : A -> list kind).
+Hypothesis HQ : forall k b l, Q k k b l -> exists a, b = x0 a /\ l = fl a.
+
+Lemma tail_many k1 r tl lt :
+  Many (el_Q Q) k1 r tl lt -> r <= k1 -> exists t, tl = x_tail fl x0 (k1 - r) t /\ lt = fl_tail fl t.
 Proof.
-  intros HM. induction HM as [k1 r|k1 r [b off] la l1 l2 (c & l' & -> & Hoff & a & Hb & ->) _ IH]; intros Hr.
+  intros HM. induction HM as [k1 r|k1 r [b off] la l1 l2 (c & l' & -> & Hoff & Hb) _ IH]; intros Hr.
   - exists []. split; reflexivity.
-  - destruct (IH ltac:(lia)) as (t & -> & ->). exists ((c, a) :: t). cbn [fst snd] in *. subst. split.
-    + cbn [x_tail]. rewrite Nat.sub_diag. f_equal. f_equal. lens. lia.
+  - destruct (IH ltac:(lia)) as (t & -> & ->). cbn [fst snd] in *. apply HQ in Hb as (a & -> & ->).
+    exists ((c, a) :: t). subst. split.
+    + cbn [x_tail]. f_equal. f_equal. lens. lia.
     + unfold fl_tail. cbn [flat_map fst snd]. now rewrite <- !app_assoc.
 Qed.
 
-Lemma sep_conv {A B} (x : nat -> A -> B) (fl : A -> list kind) k r items l :
-  (exists h tl l0 lt, items = h :: tl /\ l = l0 ++ lt /\ snd h = k - r /\ IQ x fl k k (fst h) l0
-                      /\ Many (el_Q (IQ x fl)) (k + len l0) r tl lt) -> r <= k ->
-  exists a, items = x_sep fl (x 0) (k - r) (Some a) /\ l = fl_sep fl (Some a).
+Lemma sep_conv k r items l :
+  (exists h tl l0 lt, items = h :: tl /\ l = l0 ++ lt /\ snd h = k - r /\ Q k k (fst h) l0
+                      /\ Many (el_Q Q) (k + len l0) r tl lt) -> r <= k ->
+  exists a, items = x_sep fl x0 (k - r) (Some a) /\ l = fl_sep fl (Some a).
 Proof.
-  intros ([h o] & tl & l0 & lt & -> & -> & Ho & (a & Ha & ->) & HM) Hr. cbn [fst snd] in *.
-  destruct (tail_many _ _ _ _ _ _ HM ltac:(lia)) as (t & -> & ->). exists (a, t). cbn [x_sep fl_sep]. split; [|reflexivity].
-  rewrite Nat.sub_diag in Ha. subst. f_equal. f_equal. lia.
+  intros ([h o] & tl & l0 & lt & -> & -> & Ho & Hh & HM) Hr. cbn [fst snd] in *. apply HQ in Hh as (a & -> & ->).
+  destruct (tail_many _ _ _ _ HM ltac:(lia)) as (t & -> & ->). exists (a, t). cbn [x_sep fl_sep]. split; [|reflexivity].
+  subst. f_equal. f_equal. lia.
 Qed.
+End Sep.
+
+Lemma IQ_diag {A B} (x : nat -> A -> B) fl k b l : IQ x fl k k b l -> exists a, b = x 0 a /\ l = fl a.
+Proof. intros (a & -> & ->). rewrite Nat.sub_diag. eauto. Qed.
 
 (* ---- arguments, calls, assignments ---- *)
 Lemma info_append_nil inf e : i_errs (info_append inf e) <> [].
@@ -155,7 +163,7 @@ Proof.
              [apply Spec_peek | intros; exact I|].
            intros k r a l _ _ -> _. exists None. split; reflexivity.
         -- eapply Spec_conseq; [apply (list_spec f _ _ _ (arg_spec f)); grow_solve | intros a H; exact H|].
-           intros k r a l Hr _ H _. destruct (sep_conv _ _ _ _ _ _ H Hr) as (x & H1 & H2). exists (Some x). auto.
+           intros k r a l Hr _ H _. destruct (sep_conv _ _ _ (IQ_diag x_cmp fl_cmp) _ _ _ _ H Hr) as (x & H1 & H2). exists (Some x). auto.
       * spec.
       * grow_solve.
       * grow_solve.
@@ -213,7 +221,9 @@ Proof.
     assert (Hsp : Spec (p_preceded (p_tag toks (is_k KElse)) (p_expect q m)) (fun o => forall a, o = Some a -> C a)
               (fun k r o l => exists t l1 l2, l = l1 ++ l2 /\ (exists c, l1 = cm c ++ [tk t] /\ is_k KElse (tk t) = true)
                                              /\ exists a, o = Some a /\ Q (k + len l1) r a l2)).
-    { eapply Spec_preceded; [apply Spec_tag | apply Spec_expect; [exact Hq | exact Gq] | | | intros; exact I]; grow_solve. }
+    { eapply Spec_conseq; [eapply Spec_preceded; [apply Spec_tag | apply Spec_expect; [exact Hq | exact Gq] | | | intros; exact I]; grow_solve | |].
+      - intros a H. exact H.
+      - intros k r a l _ _ H. exact H. }
     destruct (Hsp _ _ _ E Hr Hb ltac:(intros a ->; now apply Hc)) as (l & S1 & P1 & R1 & t & l1 & l2 & -> & (c & -> & Hk) & a & -> & HQ).
     exists ((cm c ++ [tk t]) ++ l2). repeat split; auto. right. split.
     + unfold p_preceded in E. apply p_map_ok in E as (ab & E & _). apply p_pair_ok in E as (s2 & E & _).
@@ -238,4 +248,87 @@ Proof.
   - destruct (IH ltac:(lia)) as (b & -> & -> & Hb). exists (SCons a b). cbn [fst snd] in *. subst.
     cbn [x_stmts fl_stmts else_oks]. rewrite Nat.sub_diag, Hok, Hb. repeat split. f_equal. f_equal. lia.
 Qed.
+
+Lemma opt_expr_nil (c : option (expr * nat)) : opt_expr_errors c = [] -> forall a, c = Some a -> NoErr expr_errors (fst a).
+Proof. intros H [e off] ->. cbn in H. now apply shift_es_nil in H. Qed.
+Lemma opt_stmt_nil (c : option (stmt * nat)) : TypingProofs.opt_stmt_errors c = [] -> forall a, c = Some a -> NoErr stmt_errors (fst a).
+Proof. intros H [e off] ->. cbn in H. now apply shift_es_nil in H. Qed.
+
+Lemma stmt_step f : StmtInv f -> StmtInv (S f).
+Proof.
+  intros IH. unfold StmtInv in *. eapply Spec_ext; [intros s; symmetry; apply (p_stmt_S toks)|]. unfold stmt_ref.
+  pose proof (expr_inv_top toks HL f) as Hexpr.
+  repeat apply Spec_alt.
+  - (* ; *)
+    eapply Spec_map; [apply Spec_info_tag | intros a _; exact I|].
+    intros k r [t inf] l Hr _ (Hinf & c & -> & Hk). cbn [fst snd] in *. subst. apply is_k_eq in Hk. rewrite Hk.
+    exists (SEmp c). cbn [x_stmt fl_stmt else_ok open_if]. split; [|split; [|split; [reflexivity | discriminate]]]; [|reflexivity].
+    f_equal. unfold mkinfo. f_equal. lia.
+  - (* if *)
+    eapply Spec_map.
+    + spec. apply else_spec; [apply Spec_ref; exact IH | grow_solve].
+    + intros [[t1 [t2 [c [t3 [t e]]]]] inf] H. unfold NoErr in H. rewrite TypingProofs.stmt_errors_if in H.
+      apply app_nil_inv in H as [H1 H]. apply app_nil_inv in H as [H2 H]. apply app_nil_inv in H as [H3 H4].
+      cbn [fst snd]. split; [exact H1|]. repeat split; try (intros ? _; exact I).
+      * now apply opt_expr_nil.
+      * now apply opt_stmt_nil.
+      * intros a ->. now apply (opt_stmt_nil _ H4 a).
+    + intros k r [[t1 [t2 [c [t3 [t e]]]]] inf] l Hr _
+        (Hinf & l1 & l1' & -> & (c1 & -> & Hk1) & l2 & l2' & -> & (t2' & Ht2 & c2 & -> & Hk2) &
+         l3 & l3' & -> & ([xe oe] & He & Hoe & ae & Hxe & ->) & l4 & l4' & -> & (t3' & Ht3 & c3 & -> & Hk3) &
+         l5 & l5' & -> & ([xt ot] & Ht & Hot & at_ & Hxt & -> & Hok & Hopen) & Helse).
+      cbn [fst snd] in *. subst. apply is_k_eq in Hk1, Hk2, Hk3. rewrite Hk1, Hk2, Hk3 in *. rewrite !Nat.sub_diag.
+      destruct Helse as [(-> & -> & Hla)|(Hla & c4 & [xs os] & ls & -> & -> & Hos & as_ & Hxs & -> & Hoks & Hopens)].
+      * exists (SIfT c1 c2 ae c3 at_). cbn [x_stmt fl_stmt else_ok open_if]. split; [|split; [|split; [exact Hok|]]].
+        -- f_equal; [f_equal; f_equal; lens; lia | f_equal; f_equal; lens; lia | unfold mkinfo; f_equal; lens; lia].
+        -- repeat (rewrite <- !app_assoc; cbn [app]). now rewrite app_nil_r.
+        -- intros _. rewrite <- Hla. f_equal. lens. lia.
+      * cbn [fst snd] in *. subst. rewrite !Nat.sub_diag.
+        assert (Hno : open_if at_ = false).
+        { destruct (open_if at_); [|reflexivity]. rewrite Hopen in Hla by reflexivity. discriminate. }
+        exists (SIfE c1 c2 ae c3 at_ c4 as_). cbn [x_stmt fl_stmt else_ok open_if]. rewrite Hno, Hok, Hoks.
+        split; [|split; [|split; [reflexivity|]]].
+        -- f_equal; [f_equal; f_equal; lens; lia | f_equal; f_equal; lens; lia | f_equal; f_equal; lens; lia | unfold mkinfo; f_equal; lens; lia].
+        -- repeat (rewrite <- !app_assoc; cbn [app]). reflexivity.
+        -- intros Ho. rewrite <- (Hopens Ho). f_equal. lens. lia.
+  - (* while *)
+    eapply Spec_map.
+    + spec.
+    + intros [[t1 [t2 [c [t3 b]]]] inf] H. unfold NoErr in H. rewrite TypingProofs.stmt_errors_while in H.
+      apply app_nil_inv in H as [H1 H]. apply app_nil_inv in H as [H2 H3].
+      cbn [fst snd]. split; [exact H1|]. repeat split; try (intros ? _; exact I).
+      * now apply opt_expr_nil.
+      * now apply opt_stmt_nil.
+    + intros k r [[t1 [t2 [c [t3 b]]]] inf] l Hr _
+        (Hinf & l1 & l1' & -> & (c1 & -> & Hk1) & l2 & l2' & -> & (t2' & Ht2 & c2 & -> & Hk2) &
+         l3 & l3' & -> & ([xe oe] & He & Hoe & ae & Hxe & ->) & l4 & l4' & -> & (t3' & Ht3 & c3 & -> & Hk3) &
+         ([xb ob] & Hb & Hob & ab & Hxb & -> & Hok & Hopen)).
+      cbn [fst snd] in *. subst. apply is_k_eq in Hk1, Hk2, Hk3. rewrite Hk1, Hk2, Hk3 in *. rewrite !Nat.sub_diag.
+      exists (SWhl c1 c2 ae c3 ab). cbn [x_stmt fl_stmt else_ok open_if]. split; [|split; [|split; [exact Hok|]]].
+      * f_equal; [f_equal; f_equal; lens; lia | f_equal; f_equal; lens; lia | unfold mkinfo; f_equal; lens; lia].
+      * repeat (rewrite <- !app_assoc; cbn [app]). reflexivity.
+      * intros Ho. rewrite <- (Hopen Ho). f_equal. lens. lia.
+  - (* block *)
+    eapply Spec_map.
+    + apply Spec_info. eapply Spec_preceded; [apply Spec_tag | spec | | | intros; exact I]; grow_solve.
+    + intros [[body t] inf] H. unfold NoErr in H. rewrite TypingProofs.stmt_errors_block in H. cbn [fst snd] in H.
+      apply app_nil_inv in H as [H1 H2]. cbn [fst snd]. split; [exact H1|]. split; [|intros ? _; exact I].
+      apply refs_nil in H2. exact H2.
+    + intros k r [[body t] inf] l Hr _
+        (Hinf & t1 & l1 & l1' & -> & (c1 & -> & Hk1) & l2 & l2' & -> & HM & (t2 & Ht2 & c2 & -> & Hk2)).
+      cbn [fst snd] in *. subst. apply is_k_eq in Hk1, Hk2. rewrite Hk1, Hk2 in *.
+      destruct (stmts_many _ _ _ _ HM ltac:(lia)) as (b & -> & -> & Hb).
+      exists (SBlk c1 b c2). cbn [x_stmt fl_stmt else_ok open_if]. split; [|split; [|split; [exact Hb | discriminate]]].
+      * f_equal; [f_equal; lens; lia | unfold mkinfo; f_equal; lens; lia].
+      * repeat (rewrite <- !app_assoc; cbn [app]). reflexivity.
+  - apply call_spec.
+  - apply assign_spec.
+  - (* parse_error; [p_restore p] is convertible with [p_alt p (fun s => PErr s)] *)
+    apply Spec_map_absurd. intros [[cs ig] inf] H. unfold NoErr in H. cbn [stmt_errors] in H.
+    exact (info_append_nil _ _ H).
+  - intros s s' a H. discriminate H.
+Qed.
+
+Theorem stmt_inv f : StmtInv f.
+Proof. induction f as [|f IH]; [intros s s' a H; discriminate H | now apply stmt_step]. Qed.
 End Stmt.
